@@ -239,9 +239,14 @@ func c18r4(c *Ctx) {
 					eqE = append(eqE, Edge{i.Block(), 0})
 				}
 			}
-			if b, ok := i.Cond.(*ssa.BinOp); ok && b.Op == token.EQL {
+			cv, neg := stripNot(i.Cond)
+			if b, ok := cv.(*ssa.BinOp); ok && (b.Op == token.EQL || b.Op == token.NEQ) {
 				if fx, fy := fieldOfLoad(b.X), fieldOfLoad(b.Y); fx != nil && fy != nil && fx.Name() == "CreatedTime" && fy.Name() == "CreatedTime" {
-					eqE = append(eqE, Edge{i.Block(), 0})
+					idx := 0 // the edge on which the two times are equal
+					if (b.Op == token.NEQ) != neg {
+						idx = 1
+					}
+					eqE = append(eqE, Edge{i.Block(), idx})
 				}
 			}
 		}
@@ -657,6 +662,7 @@ func c18r12(c *Ctx) {
 		}
 	})
 	n := 0
+	scanned := map[*ssa.Function]bool{}
 	var scan func(f *ssa.Function)
 	scan = func(f *ssa.Function) {
 		eachInstr(f, func(ins ssa.Instruction) {
@@ -666,7 +672,23 @@ func c18r12(c *Ctx) {
 				}
 			}
 			call, ok := ins.(*ssa.Call)
-			if !ok || !isCallTo(call, upd) {
+			if ok && !isCallTo(call, upd) {
+				// the task body extracted into a method / function of the package that is handed the item
+				if sc := call.Call.StaticCallee(); sc != nil && len(sc.Blocks) > 0 && funcPkgPath(sc) == funcPkgPath(fn) && !scanned[sc] && sc != fn {
+					takesItem := false
+					for _, a := range call.Call.Args {
+						if structOf(a.Type()) == p.Struct("pkg/security", "SecretItem") {
+							takesItem = true
+						}
+					}
+					if takesItem {
+						scanned[sc] = true
+						scan(sc)
+					}
+				}
+				return
+			}
+			if !ok {
 				return
 			}
 			n++
